@@ -4,7 +4,7 @@
 const acorn = require('../../vendor/acorn.js')
 
 const isObj = x => x && typeof x === 'object'
-const SKIP = new Set(['start', 'end', 'loc', 'range', 'raw', '__hook', '__req', '__origOp', '__in', '__excl', '__paren'])
+const SKIP = new Set(['start', 'end', 'loc', 'range', 'raw', '__hook', '__req', '__origOp', '__in', '__excl', '__paren', '__tagged', '__rawKept'])
 
 function parse (code, opts = {}) {
   return acorn.parse(code, {
@@ -346,7 +346,9 @@ function normalize (node) {
       node.callee.object.object.type === 'Literal' && node.arguments[0] && node.arguments[0].type === 'Literal' && Object.is(litKey(node.arguments[0]), litKey(node.callee.object.object))) {
     return { type: 'CallExpression', callee: node.callee.object, arguments: node.arguments.slice(1), optional: false, __hook: node.__hook, __req: node.__req }
   }
-  if (node.type === 'TemplateElement') node.value = { cooked: node.value.cooked, raw: node.value.cooked == null ? node.value.raw : undefined }
+  // the raw spelling of a template chunk is observable only through a tag function: compared for tagged templates
+  if (node.type === 'TaggedTemplateExpression') for (const q of node.quasi.quasis) { if (q.__rawKept !== undefined) q.value.raw = q.__rawKept; delete q.__rawKept }
+  if (node.type === 'TemplateElement') { node.__rawKept = node.value.raw; node.value = { cooked: node.value.cooked, raw: node.value.cooked == null ? node.value.raw : undefined } }
   if (node.type === 'Program') { delete node.sourceType }
   return node
 }
